@@ -325,7 +325,12 @@ Verdict(T, v) ==
     [] T.k = "enum" ->
          \* the value must be of the kind of some member value (C02: a float is never an int);
          \* only bool/int, which the int column leaves open, stay don't-care
-         IF ~IsAtom(v) THEN "R"
+         IF IsSeqV(v)          \* a member whose value is a tuple is written as a sequence of the same elements
+         THEN (IF \E i \in DOMAIN v.xs : ~IsAtom(v.xs[i]) THEN "R"          \* (tuple members of the universe hold atoms)
+               ELSE IF \E i \in DOMAIN T.vs : T.vs[i].k = "seq" /\ Len(T.vs[i].xs) = Len(v.xs)
+                                               /\ \A j \in DOMAIN v.xs : SameKindEq(T.vs[i].xs[j], v.xs[j]) THEN "A"
+               ELSE IF \E i \in DOMAIN T.vs : T.vs[i].k = "seq" /\ PyEq(T.vs[i], MkTuple(v.xs)) THEN "D" ELSE "R")
+         ELSE IF ~IsAtom(v) THEN "R"
          ELSE IF \E i \in DOMAIN T.vs : SameKindEq(T.vs[i], v) THEN "A"
          ELSE IF \E i \in DOMAIN T.vs : PyEq(T.vs[i], v) /\ {T.vs[i].k, v.k} = {"bool", "int"} THEN "D" ELSE "R"
     [] T.k = "ann" ->
@@ -428,7 +433,10 @@ Img(T, v) ==
     [] T.k = "union" -> Img(T.alts[UnionPick(T.alts, v, 1)[1]], v)
     [] T.k = "lit"   -> v
     [] T.k = "enum"  -> [k |-> "enum", e |-> T.name,
-                         i |-> CHOOSE i \in DOMAIN T.vs : SameKindEq(T.vs[i], v)]
+                         i |-> IF IsSeqV(v)
+                               THEN CHOOSE i \in DOMAIN T.vs : T.vs[i].k = "seq" /\ Len(T.vs[i].xs) = Len(v.xs)
+                                                                /\ \A j \in DOMAIN v.xs : SameKindEq(T.vs[i].xs[j], v.xs[j])
+                               ELSE CHOOSE i \in DOMAIN T.vs : SameKindEq(T.vs[i], v)]
     [] T.k = "ann"   -> Img(T.t, v)
     [] T.k = "sub"   -> [k |-> "sub", c |-> T.name, x |-> Img(T.base, v)]
     [] T.k = "tvar"  ->
